@@ -78,4 +78,18 @@ RegisterAccess st_area_read(const RegisterArea *a, RegisterAtom *dest,
   return rv;
 }
 
+/* libc model (assumption about libc): CBMC 6.11's built-in memcpy copies wrong
+ * contents for a symbolic length into a uint16_t array (DESIGN section 9, P6b).
+ * Typed access copies one register (2, 4 or 8 octets, symbolic); targets that
+ * execute reg_mem_read/reg_mem_write define RT_MEMCPY_MODEL and unwind this
+ * loop completely (--unwindset memcpy.0:9 with unwinding assertion). */
+#if !VERIF_IS_NATIVE && defined(RT_MEMCPY_MODEL)
+void *memcpy(void *dest, const void *src, size_t n)
+{
+  for (size_t i = 0; i < n; i++)
+    ((unsigned char *)dest)[i] = ((const unsigned char *)src)[i];
+  return dest;
+}
+#endif
+
 #endif /* STUBS_REGISTER_CALLBACKS_H */
